@@ -275,6 +275,7 @@ def batches_for(prop, tier):
     if prop == "C11":
         return [
             Batch("history", "asan", 4000 if q else 200000, {"clones": 1, "services": 0}, "history/clone-then-mutate"),
+            Batch("history", "asan", 2000 if q else 60000, {"clones": 1, "services": 0, "eqstress": 1}, "history/clone-with-dense-equivalences"),
         ]
     if prop == "C12":
         return [
@@ -511,12 +512,14 @@ def selftest_determinism(engine, seeds, count):
     os.makedirs(outdir, exist_ok=True)
     bad = 0
     total = 0
+    known_file = os.path.join(outdir, "known.sigs")
+    open(known_file, "w").write("\n".join(sorted(s for f in load_known().get("findings", []) for s in f.get("signatures", []))) + "\n")
     for seed in range(1, seeds + 1):
         b = Batch(engine, fl, count)
         env_backup = os.environ.get("VERIF_DUMMY")
-        a = run_batch(binaries, b, seed, "quick", None, outdir, workers=16)
+        a = run_batch(binaries, b, seed, "quick", known_file, outdir, workers=16)
         os.environ["VERIF_DUMMY"] = "x" * 3000
-        c = run_batch(binaries, b, seed, "quick", None, outdir, workers=5)
+        c = run_batch(binaries, b, seed, "quick", known_file, outdir, workers=5)
         if env_backup is None:
             os.environ.pop("VERIF_DUMMY", None)
         for idx, fp in a["fps"].items():
